@@ -611,7 +611,13 @@ class Gen:
         if kind == "cond":
             want = st.taken
             r = rng.random()
-            d = self.pick_ref(site, ("const",), pred=lambda d: not getattr(d, "in_if", False))
+            # (not a name that is also defined further out: in an early pass the condition would be evaluated with the outer
+            # definition, and what the other branch defines then stays in the symbol table - a known finding of C02, kept out
+            # of the generated programs so that it cannot mask anything else)
+            def unshadowed(d):
+                return not getattr(d, "in_if", False) and all(a.defs.get(d.name) in (None, d) for a in site.chain()) and \
+                    all(a.defs.get(d.name) in (None, d) for a in d.scope.chain())
+            d = self.pick_ref(site, ("const",), pred=unshadowed)
             if d is not None and r < 0.5 and hasattr(d, "value"):
                 v = d.value
                 true_forms = [("==", v), ("!=", v + 1), (">", v - 1), ("<", v + 1), (">=", v), ("<=", v)]
